@@ -224,27 +224,38 @@ def tabOf : Fam → Kind → Nat → Option BasisTab
 /-- set position `i` of a list -/
 def lset (l : List Nat) (i v : Nat) : List Nat := l.set i v
 
-/-- local DOF index → slot of the canonical (orientation 0) table.  Only Lagrange-3 has more than one DOF on an
-    edge / quadrilateral face; its evaluators write formula slot `(i, j)` to `phi[base + n·i + map(o_i, j)]`. -/
-def slotPerm (f : Fam) (m : Mesh) (c : Nat) : List Nat :=
-  let nl := numLocal f m.kind m.dim
-  let id := List.range nl
-  if f ≠ Fam.L3 ∨ m.dim < 2 then id else
+/-- orientation codes of the edges of cell `c` (`SubIndexMapping<Shape, 1, 0>`: `CongruencySampler::compare` of the
+    cell's local edge with the stored edge) -/
+def edgeCodes (m : Mesh) (c : Nat) : List Nat :=
   let cv := m.row m.dim 0 c
-  let ebase := numVerts m.kind m.dim
-  let edges := fim m.kind m.dim 1
-  let p1 := (List.range edges.length).foldl (fun p i =>
-      let src := (edges.getD i []).map fun l => cv.getD l 0
-      let o := orientEdge src (m.row 1 0 ((m.row m.dim 1 c).getD i 0))
-      (List.range 2).foldl (fun p j => lset p (ebase + 2 * i + cmapEdge o j) (ebase + 2 * i + j)) p) id
+  (fim m.kind m.dim 1).zipIdx.map fun (e, i) =>
+    orientEdge (e.map fun l => cv.getD l 0) (m.row 1 0 ((m.row m.dim 1 c).getD i 0))
+
+/-- orientation codes of the quadrilateral faces of a hexahedron (`SubIndexMapping<Hypercube<3>, 2, 0>`) -/
+def faceCodes (m : Mesh) (c : Nat) : List Nat :=
   if m.kind = Kind.H ∧ m.dim = 3 then
-    let fbase := ebase + 2 * edges.length
-    let faces := fim m.kind 3 2
-    (List.range faces.length).foldl (fun p i =>
-      let src := (faces.getD i []).map fun l => cv.getD l 0
-      let o := orientQuad src (m.row 2 0 ((m.row 3 2 c).getD i 0))
-      (List.range 4).foldl (fun p j => lset p (fbase + 4 * i + cmapQuad o j) (fbase + 4 * i + j)) p) p1
-  else p1
+    let cv := m.row m.dim 0 c
+    (fim Kind.H 3 2).zipIdx.map fun (e, i) =>
+      orientQuad (e.map fun l => cv.getD l 0) (m.row 2 0 ((m.row 3 2 c).getD i 0))
+  else []
+
+/-- local DOF index → slot of the canonical (orientation 0) table, from the orientation codes.  Only Lagrange-3 has
+    more than one DOF on an edge / quadrilateral face; its evaluators write formula slot `(i, j)` to
+    `phi[base + n·i + map(o_i, j)]`. -/
+def slotPermOf (f : Fam) (k : Kind) (dim : Nat) (ec fc : List Nat) : List Nat :=
+  let nl := numLocal f k dim
+  let id := List.range nl
+  if f ≠ Fam.L3 ∨ dim < 2 then id else
+  let ebase := numVerts k dim
+  let p1 := (List.range ec.length).foldl (fun p i =>
+      (List.range 2).foldl (fun p j => lset p (ebase + 2 * i + cmapEdge (ec.getD i 0) j) (ebase + 2 * i + j)) p) id
+  let fbase := ebase + 2 * ec.length
+  (List.range fc.length).foldl (fun p i =>
+      (List.range 4).foldl (fun p j => lset p (fbase + 4 * i + cmapQuad (fc.getD i 0) j) (fbase + 4 * i + j)) p) p1
+
+/-- the local basis of cell `c` only depends on the orientation codes of its edges and faces -/
+def slotPerm (f : Fam) (m : Mesh) (c : Nat) : List Nat :=
+  slotPermOf f m.kind m.dim (edgeCodes m c) (faceCodes m c)
 
 /-! ### `ParametricEvaluator`: values, gradients, Hessians in real coordinates -/
 
